@@ -50,7 +50,7 @@ func runC20(w *World, r *Report) {
 	allowedWriters := map[*ssa.Function]string{
 		addNode: "entry", addEdge: "entry", addBranch: "entry", addTV: "helper of entries", updTV: "helper of entries",
 		w.Fn("compose", "NewChain"): "constructor: marks the freshly created inner graph as a chain before it is handed out",
-		gcompile: "sets compiled", wfcompile: "installs static-value handlers before graph.compile (runner gets a copy, see compile-pure)",
+		gcompile:                    "sets compiled", wfcompile: "installs static-value handlers before graph.compile (runner gets a copy, see compile-pure)",
 	}
 	for _, fn := range w.RepoFuncs("compose") {
 		for _, fw := range fieldWrites(fn) {
@@ -406,6 +406,71 @@ func runC20(w *World, r *Report) {
 				return 0, false
 			})
 		}
+		// a step limit is rejected whenever the runner is in DAG mode — whichever way that mode was selected
+		// (AllPredecessor option or Workflow): the rejecting gate must test the runner's mode itself
+		if len(dagStores) == 1 {
+			var modeConds []ssa.Value
+			for _, g := range guardsOf(dagStores[0].Block()) {
+				if g.pol {
+					modeConds = append(modeConds, g.cond)
+				}
+			}
+			isMode := func(g guard) bool {
+				if !g.pol {
+					return false
+				}
+				if isLoadOfField(g.cond, fdag) {
+					return true
+				}
+				for _, mc := range modeConds {
+					if g.cond == mc {
+						return true
+					}
+					op1, x1, y1, ok1 := asCmp(g.cond)
+					op2, x2, y2, ok2 := asCmp(mc)
+					if ok1 && ok2 && op1 == op2 && x1 == x2 && sameKeyExpr(y1, y2) {
+						return true
+					}
+				}
+				return false
+			}
+			fMax := w.Field("compose", "graphCompileOptions", "maxRunSteps")
+			nGate := 0
+			var gateIf *ssa.If
+			instrs(gcompile, func(in ssa.Instruction) {
+				iff, ok := in.(*ssa.If)
+				if !ok {
+					return
+				}
+				op, x, y, ok := asCmp(iff.Cond)
+				if !ok || !isLoadOfField(x, fMax) || !isConstN(y, 0) || !(op == token.GTR || op == token.NEQ) {
+					return
+				}
+				if !hasGuard(iff.Block(), isMode) {
+					return
+				}
+				reach, _ := pathFromBlock(pathQuery{fn: gcompile, goal: isSuccess}, iff.Block().Succs[0])
+				if !reach {
+					nGate++
+					gateIf = iff
+				}
+			})
+			okg := nGate >= 1
+			det := "no gate `runner in DAG mode && maxRunSteps > 0 -> error` found: the rejection does not test the runner's own mode"
+			if okg {
+				// every path to success passes the mode test that guards the gate
+				var modeIf *ssa.If
+				for _, g := range guardsOf(gateIf.Block()) {
+					if isMode(g) {
+						modeIf = g.at
+					}
+				}
+				if modeIf == nil || !instrDominates(modeIf, success[0]) {
+					okg, det = false, "the DAG-mode step-limit gate can be bypassed on some path to the success return"
+				}
+			}
+			r.Check(okg, "C20.gates", "graph.compile gate: step limit rejected in DAG mode", gcompile.Pos(), "if r.dag && maxRunSteps > 0 -> error, on every path to success", det+": a Workflow (always DAG) compiled with WithMaxRunSteps is accepted and the limit silently ignored")
+		}
 		// DAG channel builder chosen => r.dag set: both controlled by the same runType value
 		r.Check(len(dagStores) == 1, "C20.gates", "graph.compile: single site sets runner.dag", gcompile.Pos(), "one store", "runner.dag set at several places")
 	}
@@ -501,7 +566,9 @@ func runC20(w *World, r *Report) {
 			return 1, true
 		}
 	}
-	is := func(p *ssa.Parameter) func(ssa.Value) bool { return func(v ssa.Value) bool { return v == ssa.Value(p) } }
+	is := func(p *ssa.Parameter) func(ssa.Value) bool {
+		return func(v ssa.Value) bool { return v == ssa.Value(p) }
+	}
 	blocks(addNode, "duplicate node key", nodesW, lookupOK(is(keyParam(addNode, "key")), true))
 	// state handler without state
 	fSG := w.Field("compose", "graph", "stateGenerator")
@@ -566,6 +633,70 @@ func runC20(w *World, r *Report) {
 	}
 	unknownEndpoint(addEdge, keyParam(addEdge, "startNode"), cSTART, edgeW, "unknown edge start node")
 	unknownEndpoint(addEdge, keyParam(addEdge, "endNode"), cEND, edgeW, "unknown edge end node")
+	// duplicate edges: each edge list is scanned for the end node whenever it is about to be extended — the
+	// scan runs under no condition that the extension itself is not under
+	for _, field := range []string{"controlEdges", "dataEdges"} {
+		fEdges := w.Field("compose", "graph", field)
+		endP := keyParam(addEdge, "endNode")
+		var appendAt ssa.Instruction
+		for _, in := range writesTo(addEdge, field) {
+			appendAt = in
+		}
+		var cmpIf *ssa.If
+		instrs(addEdge, func(in ssa.Instruction) {
+			iff, ok := in.(*ssa.If)
+			if !ok {
+				return
+			}
+			op, x, y, ok := asCmp(iff.Cond)
+			if !ok || op != token.EQL {
+				return
+			}
+			for _, pr := range [][2]ssa.Value{{x, y}, {y, x}} {
+				if pr[1] != ssa.Value(endP) {
+					continue
+				}
+				// pr[0] = edges[start][i]
+				u, ok := pr[0].(*ssa.UnOp)
+				if !ok {
+					continue
+				}
+				ia, ok := u.X.(*ssa.IndexAddr)
+				if !ok {
+					continue
+				}
+				if lk, ok := ia.X.(*ssa.Lookup); ok && isLoadOfField(lk.X, fEdges) {
+					cmpIf = iff
+				}
+			}
+		})
+		construct := "addEdgeWithMappings: duplicate scan of " + field
+		if appendAt == nil || cmpIf == nil {
+			r.Fail("C20.presence", construct, addEdge.Pos(), "no scan of the existing edges for the end node / no extension found")
+			continue
+		}
+		hit, _ := pathFromBlock(pathQuery{fn: addEdge, goal: func(i ssa.Instruction) bool { return i == appendAt }}, cmpIf.Block().Succs[0])
+		under := map[*ssa.If]bool{}
+		for _, g := range guardsOf(appendAt.Block()) {
+			under[g.at] = true
+		}
+		var extra []string
+		for _, g := range guardsOf(cmpIf.Block()) {
+			if under[g.at] {
+				continue
+			}
+			// the scan's own bound
+			if op, _, y, ok := asCmp(g.cond); ok && op == token.LSS && g.pol && isLenOf(y, func(v ssa.Value) bool {
+				lk, ok := v.(*ssa.Lookup)
+				return ok && isLoadOfField(lk.X, fEdges)
+			}) {
+				continue
+			}
+			extra = append(extra, guardText(g))
+		}
+		r.Check(!hit && len(extra) == 0, "C20.presence", construct, cmpIf.Cond.Pos(), "every existing entry is compared with the end node before the list is extended; a match returns an error",
+			fmt.Sprintf("a duplicate %s entry can be added: match arm reaches the extension=%v, scan skipped under %v — the same edge is recorded twice and its mappings are chained (every run then fails) instead of the second declaration being rejected", field, hit, extra))
+	}
 	brW := writesTo(addBranch, "branches")
 	unknownEndpoint(addBranch, keyParam(addBranch, "startNode"), cSTART, brW, "unknown branch start node")
 	blocks(addBranch, "END as branch start", brW, eqConstParam(keyParam(addBranch, "startNode"), cEND))
@@ -713,9 +844,9 @@ func runC20(w *World, r *Report) {
 }
 
 var nilMissExceptions = map[string]string{
-	"(*compose.graph).getNodeGenericHelper nodes[name]": "precondition of the helper: every caller passes START/END (handled above the lookup) or a key validated when it was inserted (C20.presence unknown-endpoint rules guard every insertion into toValidateMap / fieldMappingRecords / nodes)",
-	"(*compose.graph).getNodeInputType nodes[name]":     "same precondition as getNodeGenericHelper",
-	"(*compose.graph).getNodeOutputType nodes[name]":    "same precondition as getNodeGenericHelper",
+	"(*compose.graph).getNodeGenericHelper nodes[name]":   "precondition of the helper: every caller passes START/END (handled above the lookup) or a key validated when it was inserted (C20.presence unknown-endpoint rules guard every insertion into toValidateMap / fieldMappingRecords / nodes)",
+	"(*compose.graph).getNodeInputType nodes[name]":       "same precondition as getNodeGenericHelper",
+	"(*compose.graph).getNodeOutputType nodes[name]":      "same precondition as getNodeGenericHelper",
 	"(*compose.graph).updateToValidateMap nodes[endNode]": "endNode comes from a toValidateMap entry; entries are created only by addToValidateMap, called after the unknown-endpoint checks of addEdgeWithMappings/addBranch, and reach this arm only when the end node's input type is nil, which START/END never are",
 	"(*compose.graph).updateToValidateMap nodes[elem]":    "the start node key of a toValidateMap entry: validated at insertion, and this arm is taken only when its output type is nil, which excludes START/END",
 	"compose.validateDAG chanSubscribeTo[elem]":           "keys of m are the keys of chanSubscribeTo plus control successors/branch targets other than END, all validated nodes at insertion",
